@@ -1,4 +1,4 @@
-import GSProofs.Lemmas.RespLifeOutcomeMgr2
+import GSProofs.Lemmas.RespLifeOutcomeNStep
 import GSProofs.C05
 /-!
 # C05 — "exactly one outcome", the positive (partial) form
@@ -30,6 +30,14 @@ hooks, API calls, send failures:
   produce one (terminal statuses in parked / blocked transactions, message builders and publisher queues,
   Queued / Paused responses, task workers before their final status, pausing / cancelling FinishTask
   messages) ≤ registrations.
+* `cancelled_network_error_le_registrations`, `cancelled_excludes_network_error` — for EVERY reachable state (no
+  hypothesis on ids at all): #cancelled(r) + [a network error of r was reported] ≤ #registrations(r); hence a
+  request registered once is never reported both to the cancel listeners and to the network-error listeners, in
+  either order (the former finding `network-error-and-other-outcome`, /repo e842a00, now as a theorem instead of
+  the single regression `fix_e842a00_regression`).  Second invariant `Inv2` (Lemmas/RespLifeOutcomeN*): an
+  `emitNerr r` in a publisher queue is CONFIRMED when no `callClose r` / pending `closeNetErr r` of that publisher
+  is in front of it; cancelled events + [confirmed or reported network error] + [response alive and not failed]
+  + [parked newRequest] ≤ registrations.
 * `fresh_is_not_enough_counterexample` — under the weaker hypothesis of `protect_balanced_partial`
   (`ReachableFresh`: the id is not live *for that peer*) the count fails: a second peer re-uses the id
   of a cancelled request whose task was already popped; both StartTask messages find the new response,
@@ -38,9 +46,10 @@ hooks, API calls, send failures:
 FULL STATEMENT (not proved):
 --   theorem one_outcome : ReachableDrained c s → ∀ incarnation of r, exactly one of
 --     {completed once, cancelled once, network error}, and `nerr r` never after `done r` / `canc r`
-NOT proved: the network-error clause (no `nerr r` after / together with `done r` or `canc r` of the same
-registration — pinned for one schedule by `fix_e842a00_regression`, checked on the real code by the oracle
-class `outcome-multi`), "at least one outcome" (liveness, `outcome-none`), and the per-registration reading
+NOT proved: completed vs network error (no `nerr r` together with `done r` of the same registration: needs, on
+top of `Inv2`, that a closed response stream leaves no terminal status of `r` in the peer's builders and that
+`emitDone r` only follows a `callTerminate` carrying the identity of the registered response — checked on the
+real code by the oracle class `outcome-multi`), "at least one outcome" (liveness, `outcome-none`), and the per-registration reading
 when an id is re-used (the log is keyed by id: outcomes of different registrations of one id interleave).
 -/
 namespace GS.C05
@@ -173,6 +182,72 @@ theorem mqSum_zero_iff (r : Id) (l : List PeerMQ) :
     rw [← ih]
     simp only [mqW]
     omega
+
+-- ------------------------------------------------------------------ cancelled vs network error
+/-- calls of the network-error listeners for request id `r` -/
+def networkErrorCount (s : State) (r : Id) : Nat :=
+  s.events.countP fun e => match e with | .nerr id => id == r | _ => false
+
+theorem cancC_eq (s : State) (r : Id) : cancC r s = cancelledCount s r := by
+  unfold cancC cancelledCount
+  congr 1
+
+theorem nerrC_eq (s : State) (r : Id) : nerrC r s = networkErrorCount s r := by
+  unfold nerrC networkErrorCount
+  congr 1
+
+theorem regs_eq (s : State) (r : Id) : regs r s = registrations s r := by
+  unfold regs registrations
+  congr 1
+
+/-- **C05.cancelled_network_error_le_registrations** (every reachable state, no hypothesis on request ids).
+    For every id: the cancelled notifications, plus one if a network error of that id was ever reported, never
+    exceed the registrations of that id. -/
+theorem cancelled_network_error_le_registrations {c : Cfg} {s : State} (h : Reachable c s) (r : Id) :
+    cancelledCount s r + (if 1 ≤ networkErrorCount s r then 1 else 0) ≤ registrations s r := by
+  have hi := inv2_reachable h r
+  rw [← cancC_eq, ← nerrC_eq, ← regs_eq]
+  split
+  · rename_i hn
+    have := hi.potF (Or.inl hn)
+    omega
+  · have := hi.pot0
+    omega
+
+/-- **C05.cancelled_excludes_network_error** (the repaired finding `network-error-and-other-outcome`, /repo
+    e842a00, for all schedules): a request whose id was registered at most once is never reported both as
+    cancelled by the requestor and as failed on the network — whichever comes first. -/
+theorem cancelled_excludes_network_error {c : Cfg} {s : State} (h : Reachable c s) (r : Id)
+    (hreg : registrations s r ≤ 1) : ¬ (1 ≤ cancelledCount s r ∧ 1 ≤ networkErrorCount s r) := by
+  intro ⟨h1, h2⟩
+  have := cancelled_network_error_le_registrations h r
+  rw [if_pos h2] at this
+  omega
+
+theorem reachable_of_drained {c : Cfg} {s : State} (h : ReachableDrained c s) : Reachable c s := by
+  induction h with
+  | init => exact Reachable.init
+  | step _ _ hs ih => exact Reachable.step ih hs
+
+/-- **C05.one_outcome_partial_full**: everything proved about "exactly one outcome" for an id registered
+    once (drained ids): completed ≤ 1, cancelled ≤ 1, not completed and cancelled, not cancelled and network
+    error. -/
+theorem one_outcome_partial_full {c : Cfg} {s : State} (h : ReachableDrained c s) (r : Id)
+    (hreg : registrations s r ≤ 1) :
+    completedCount s r ≤ 1 ∧ cancelledCount s r ≤ 1 ∧ ¬ (1 ≤ completedCount s r ∧ 1 ≤ cancelledCount s r) ∧
+      ¬ (1 ≤ cancelledCount s r ∧ 1 ≤ networkErrorCount s r) :=
+  ⟨(one_outcome_partial h r hreg).1, (one_outcome_partial h r hreg).2.1, (one_outcome_partial h r hreg).2.2,
+    cancelled_excludes_network_error (reachable_of_drained h) r hreg⟩
+
+/-- non-vacuity: a reachable state with a reported network error of an id registered once (the replay of
+    /repo 369d047) -/
+example : ∃ s, Reachable {} s ∧ registrations s 0 ≤ 1 ∧ 1 ≤ networkErrorCount s 0 ∧ cancelledCount s 0 = 0 :=
+  ⟨run (init {}) fix369Script, reachable_run Reachable.init _, by decide, by decide, by decide⟩
+
+/-- non-vacuity: the schedule of the former counterexample (cancel, then the message with left-over hook data
+    fails) — cancelled, and no network error reported -/
+example : ∃ s, Reachable {} s ∧ registrations s 0 ≤ 1 ∧ cancelledCount s 0 = 1 ∧ networkErrorCount s 0 = 0 :=
+  ⟨run (init {}) cancelNerrScript, reachable_run Reachable.init _, by decide, by decide, by decide⟩
 
 -- ------------------------------------------------------------------ the weaker hypothesis is not enough
 /-- peer 1 re-uses the id of peer 0's request, cancelled after its task was popped: both StartTask messages
